@@ -1,6 +1,7 @@
 package main
 
 import (
+	"bytes"
 	"encoding/binary"
 	"strings"
 
@@ -44,6 +45,11 @@ func evalC01(op string, args []string) string {
 		w, err := p.MarshalBinary()
 		if err != nil {
 			return "err"
+		}
+		// "the encoder's output" is a function of the packet: marshalling the same packet again gives
+		// the same datagram (an encoder that rearranges the attribute list shows here)
+		if w2, err2 := p.MarshalBinary(); err2 != nil || !bytes.Equal(w, w2) {
+			return "ok " + hx(w) + " second-marshal-differs"
 		}
 		q, err := radius.Parse(w, nil)
 		if err != nil {
@@ -209,6 +215,25 @@ func genC01(g *Gen, tier string, emit func(op string, args ...string)) {
 		case 9:
 			emit("encodedlen", showAVPs(g.packetAVPs()))
 		}
+	}
+	// totals far beyond the limit, in particular around 2^16 where a 16-bit Length computation would wrap
+	for _, total := range []int{65535, 65536, 65537, 65536 + 20, 65536 + 21, 65536 + 275, 65536 + 4096, 65536 + 4097, 2*65536 + 22, 70000, 131072} {
+		var as []avp
+		left := total - 20
+		for left > 0 {
+			n := 255
+			if left < 255 {
+				n = left
+			}
+			if n < 2 {
+				// cannot be met exactly with whole attributes: one octet more
+				n = 2
+			}
+			as = append(as, avp{g.Pick(1, 2, 26), make([]byte, n-2)})
+			left -= n
+		}
+		emit("marshal", "1", itoa(g.Intn(256)), hx(g.Bytes(16)), showAVPs(as))
+		emit("encodedlen", showAVPs(as))
 	}
 	if tier == "thorough" {
 		// exhaustive: every attribute region of <= 5 bytes over a small alphabet
